@@ -826,7 +826,7 @@ func panicMessage(r interface{}) (string, bool) {
 			strings.HasPrefix(r, "illegal") || strings.HasPrefix(r, "cannot") || strings.HasPrefix(r, "kindBits") ||
 			strings.HasPrefix(r, "kindOfValue") || strings.HasPrefix(r, "asUint64Any") || strings.HasPrefix(r, "toSymstr") ||
 			strings.HasPrefix(r, "unsupported") || strings.HasPrefix(r, "get: no value") || strings.Contains(r, "interp") ||
-			strings.HasPrefix(r, "unknown built-in") || strings.HasPrefix(r, "bad") || strings.HasPrefix(r, "reflect") {
+			strings.HasPrefix(r, "unknown built-in") || strings.Contains(r, "cannot convert") || strings.HasPrefix(r, "bad") || strings.HasPrefix(r, "reflect") {
 			return r, false
 		}
 		return r, true
